@@ -25,7 +25,7 @@ On(p) == Prop = "ALL" \/ Prop = p
    has been written and read back (the reloaded dictionary behaves identically) *)
 OnTok(p) == \/ On(p)
             \/ (Prop = "C08" /\ Len(dict.user) > 0)
-            \/ (Prop = "C06" /\ (dict.pl # IdPerm(dict.nl) \/ dict.pr # IdPerm(dict.nr)))
+            \/ (Prop \in {"C06", "C13"} /\ (dict.pl # IdPerm(dict.nl) \/ dict.pr # IdPerm(dict.nr)))   \* C13: "... and the mapped dictionary tokenizes identically"
             \/ (Prop = "C05" /\ "reloaded" \in DOMAIN dict)
 AT(p, n, x) == IF ~OnTok(p) THEN TRUE ELSE IF x THEN TRUE ELSE Print(<<"FAILED-CLAUSE", Prop, n, l>>, FALSE)
 (* an asserted clause; a failing one is named on stdout (single path, so printed once) *)
@@ -52,6 +52,12 @@ Densify(d) == IF "bg" \in DOMAIN d
 Session == /\ Is("session")
            /\ dict' = TLCEval(WithIdentity(Densify(E.D))) /\ opts' = E.O
            /\ ws' = [w \in 1..MaxW |-> W0] /\ cnt' = [w \in 1..MaxW |-> C0] /\ memo' = {}
+
+(* the builder refused the generated dictionary: only the ones that do not fit the packed character
+   information (more than 18 categories, a length above 15) are generated invalid *)
+BuildErr == /\ Is("build_err")
+            /\ A("C10", "rejected-dictionary-is-really-invalid", ~FitsPacking(E.D))
+            /\ UNCHANGED <<dict, opts, ws, cnt, memo>>
 
 Reset == /\ Is("reset")
          /\ A("C04", "reset-clears-result", E.n = 0)                         \* reset_sentence clears the result
@@ -169,7 +175,7 @@ BigSent == /\ Is("bigsent")
 
 Summary == Is("stress_summary") /\ UNCHANGED <<dict, opts, ws, cnt, memo>>
 
-Next == Summary \/ BigSent \/ PanicStuck \/ PanicElsewhere \/ Session \/ Reset \/ Tok \/ Read \/ CInit \/ CUpd \/ Probs \/ Respace \/ OptErr
+Next == Summary \/ BuildErr \/ BigSent \/ PanicStuck \/ PanicElsewhere \/ Session \/ Reset \/ Tok \/ Read \/ CInit \/ CUpd \/ Probs \/ Respace \/ OptErr
 Spec == Init /\ [][Next]_vars
 
 Accepted ==
